@@ -337,8 +337,89 @@ class Kit:
         else:
             self.results.append({"label": label, "ok": bool(cond), "lhs": None, "rhs": None, "bad": None, "err": 0.0})
 
-    def _add(self, label, goal, show, kind="post"):
-        self.run.obligations.append(Obligation(None, list(self.run.facts), goal, kind, show, None, label))
+    def _add(self, label, goal, show, kind="post", facts=None):
+        self.run.obligations.append(Obligation(None, list(self.run.facts) if facts is None else list(facts), goal, kind, show, None, label))
+
+    def lemma(self, label, cond, using=None, abstract=None, tol=1e-7):
+        """Proof-script step: prove `cond` (from all facts so far, or only from
+        the facts listed in `using`; with the terms in `abstract` {term: name}
+        replaced by fresh variables in that obligation), then make it available
+        as a fact for later steps.  Nothing is assumed: the step is an obligation."""
+        label = self._name(label)
+        if self.mode == "sym":
+            c = S._cb(cond)
+            if c is S.TRUE:
+                self.run.n_trivial += 1
+                return c
+            facts = list(self.run.facts) if using is None else [S._cb(u) for u in using]
+            goal = c
+            if abstract:
+                mp = {S._coerce(t): S.var(f"abs_{n}") for t, n in abstract.items()}
+                facts = [S.substitute_b(f, mp) for f in facts]
+                goal = S.substitute_b(c, mp)
+            self._add(label, goal, S.showb(goal, 240), kind="lemma", facts=facts)
+            if c.op != "F":
+                self.run.facts.append(c)
+                self.run.memo[c] = True
+            return c
+        self.results.append({"label": label, "ok": bool(cond), "lhs": None, "rhs": None, "bad": None, "err": 0.0})
+        return cond
+
+    def lemma_schema(self, label, terms, build):
+        """Generic lemma + instantiation.  build(*vals) -> (hyps, goal) built with
+        k.le/k.lt/k.eq only.  sym: (1) obligation `hyps => goal` over FRESH
+        variables (so it holds for all reals), (2) one obligation per instantiated
+        hypothesis `facts => hyp(terms)`, then goal(terms) becomes a fact.
+        conc: evaluates goal(terms) (hypotheses must hold there)."""
+        label = self._name(label)
+        if self.mode == "sym":
+            saved = S.ORACLE[0]
+            S.ORACLE[0] = None
+            try:
+                fresh = [S.var(f"abs{i}_{label.replace(' ', '_')}") for i in range(len(terms))]
+                hyps, goal = build(*fresh)
+                self._add(label + " [generic]", S._cb(goal), "forall reals: " + S.showb(S.conj(hyps), 200) + " => " + S.showb(S._cb(goal), 120), kind="lemma", facts=[S._cb(h) for h in hyps])
+                ihyps, igoal = build(*[S._coerce(t) for t in terms])
+                for i, h in enumerate(ihyps):
+                    h = S._cb(h)
+                    if h is S.TRUE:
+                        continue
+                    if any(f is h for f in self.run.facts):
+                        self.run.n_trivial += 1
+                        continue
+                    self._add(label + f" [hyp {i}]", h, S.showb(h, 200), kind="lemma")
+                ig = S._cb(igoal)
+                if ig.op not in ("T", "F"):
+                    self.run.facts.append(ig)
+                    self.run.memo[ig] = True
+                return ig
+            finally:
+                S.ORACLE[0] = saved
+        ihyps, igoal = build(*terms)
+        ok = (not all(bool(h) for h in ihyps)) or bool(igoal)
+        self.results.append({"label": label + " [generic]", "ok": bool(ok), "lhs": None, "rhs": None, "bad": None, "err": 0.0})
+        return igoal
+
+    # comparison builders usable in both modes (floats get a tolerance)
+    def le(self, a, b, tol=1e-9):
+        if self.mode == "sym":
+            return S._coerce(a) <= S._coerce(b)
+        return float(a) <= float(b) + tol * (1 + abs(float(a)) + abs(float(b)))
+
+    def lt(self, a, b):
+        if self.mode == "sym":
+            return S._coerce(a) < S._coerce(b)
+        return float(a) < float(b)
+
+    def eq(self, a, b, tol=1e-9):
+        if self.mode == "sym":
+            return S._coerce(a) == S._coerce(b)
+        return abs(float(a) - float(b)) <= tol * (1 + abs(float(a)) + abs(float(b)))
+
+    def all(self, conds):
+        if self.mode == "sym":
+            return S.conj(list(conds))
+        return all(bool(c) for c in conds)
 
     # ----------------------------------------------------- exceptions as goals
     def must_raise(self, label, fn, exc=(AssertionError,)):
